@@ -278,6 +278,67 @@ pub fn run(run: &mut Run) -> &'static str {
         }
         Ok(())
     });
+    // ---- the per-node gate in front of the clock: "limits compared with elapsed time at each poll"
+    // must keep holding however many nodes a search has already visited. should_stop is driven the
+    // way the search drives it - one call per node, consecutive counters - starting from a counter
+    // value a long search reaches (2^16 .. 2^40 and their neighbourhoods; 2^32 nodes is a quarter
+    // of an hour of search), first while the limit has not passed, then after it has; it must
+    // answer "stop" within 100 000 further nodes (ten times the engine's own polling distance).
+    let cases = tier.pick(3_000, 60_000);
+    let strat = (0usize..16, 0u64..40_000, 0u64..30_000, 2u64..12, any::<bool>(), 1u32..4);
+    run.proptest_part("poll_gate", RULE, strat, cases, |(sel, back, warm, limit_ms, clocks, mtg): &(usize, u64, u64, u64, bool, u32), st: &mut Stats| {
+        const BASES: [u64; 16] = [0, 10_000, 1 << 16, 1 << 24, 1 << 31, 1 << 32, 1 << 32, 1 << 32, (1 << 32) + (1 << 31), 1 << 33, 3 << 32, 1 << 36, 1 << 40, 5 << 32, 1 << 20, 1 << 32];
+        let start = BASES[*sel].saturating_sub(*back);
+        st.eval();
+        let crosses = |b: u64| start <= b && b <= start + warm + 100_000;
+        if start + warm + 100_000 >= 1 << 32 {
+            st.nontrivial(&(start, *warm, *limit_ms, *clocks));
+            st.class(if crosses(1 << 32) { "counter_crosses_2^32" } else { "counter_beyond_2^32" });
+            if st.want_nontrivial_sample() {
+                st.nontrivial_sample(json!({"first_node_counter": start, "nodes_before_the_limit": warm, "limit_ms": limit_ms, "clocks": clocks}));
+            }
+        } else {
+            st.class("counter_below_2^32");
+        }
+        let game = to_game(&Pos::start());
+        let tc = if *clocks {
+            let t = Some(Duration::from_millis(2 * limit_ms));
+            TimeControl::Clocks(Clocks { white_clock: t, black_clock: t, white_increment: None, black_increment: None, moves_to_go: Some(*mtg) })
+        } else {
+            TimeControl::ExactTime(Duration::from_millis(*limit_ms))
+        };
+        let options = EngineOptions { move_overhead: 0, ..EngineOptions::default() };
+        crate::engine::search::time_control::verif_hooks::arm(0);
+        let desc = format!("{tc:?}, node counter from {start}");
+        let r = catch(|| {
+            let (mut ts, _control) = TimeStrategy::new(&game, &tc, &options);
+            let (_, hard) = ts.verif_limits();
+            let mut n = start;
+            // before the limit: a "stop" answer is only acceptable once the limit has really passed
+            for _ in 0..*warm {
+                let before = ts.elapsed();
+                if ts.should_stop(n) && before <= hard && ts.elapsed() <= hard {
+                    return Err(format!("told to stop at node {n} although only {:?} of the {hard:?} limit had passed", ts.elapsed()));
+                }
+                n += 1;
+            }
+            while ts.elapsed() <= hard + Duration::from_micros(200) {
+                std::thread::sleep(Duration::from_micros(300));
+            }
+            for _ in 0..100_000u32 {
+                if ts.should_stop(n) {
+                    return Ok(());
+                }
+                n += 1;
+            }
+            Err(format!("the limit {hard:?} had passed ({:?} elapsed), yet 100000 consecutive nodes ({}..{n}) were searched without being told to stop", ts.elapsed(), start + warm))
+        });
+        match r {
+            Ok(Ok(())) => Ok(()),
+            Ok(Err(m)) => Err(Fail::new(if m.starts_with("told") { "gate:stop_before_the_limit" } else { "gate:limit_not_enforced" }, format!("{desc}: {m}"))),
+            Err(pm) => Err(Fail::new(&format!("gate_panic:{}", panic_signature(&pm)), format!("{desc}: should_stop panicked: {pm}"))),
+        }
+    });
     // ---- parser
     let cases = tier.pick(200_000, 3_000_000);
     let opt32 = || prop_oneof![Just(None), (0u32..4_000_000).prop_map(Some)];
